@@ -103,12 +103,35 @@ def run_one(check, seed, index, tier, workdir, scenario=None):
     ctx = Ctx(workdir)
     simproc.scrub_env()
     simproc.install_simhash(scenario.get("hash_salt", 0))
+    simproc.install_locale(scenario)
     faulthandler.dump_traceback_later(RUN_TIMEOUT, exit=True)
     try:
         check.execute(scenario, ctx)
     finally:
         faulthandler.cancel_dump_traceback_later()
     return scenario, ctx
+
+
+def _escaped_from_sut(exc):
+    """Name of the innermost function when the exception was raised inside the repository under test (not in /verif)."""
+    from . import simproc
+
+    tb = traceback.extract_tb(exc.__traceback__)
+    if not tb:
+        return None
+    last = tb[-1]
+    repo = os.path.realpath(simproc.REPO)
+    fn = os.path.realpath(last.filename) if os.path.exists(last.filename) else last.filename
+    if fn.startswith(repo + os.sep):
+        return last.name
+    # decoding errors surface in codec frames: attribute them to the nearest non-stdlib frame
+    for fr in reversed(tb):
+        f2 = os.path.realpath(fr.filename) if os.path.exists(fr.filename) else fr.filename
+        if f2.startswith(repo + os.sep):
+            return fr.name
+        if f2.startswith(VERIF + os.sep):
+            return None
+    return None
 
 
 def _batch(args):
@@ -124,7 +147,14 @@ def _batch(args):
                 break
             try:
                 sc, ctx = run_one(check, seed, i, tier, wd)
-            except Exception:
+            except Exception as e:
+                where = _escaped_from_sut(e)
+                if where is not None:
+                    # an exception raised by the code under test at a call the check does not judge: the run is cut and
+                    # counted (replayable by index); it is neither a verdict nor a defect of the harness
+                    res["runs"] += 1
+                    res["counters"]["op_raised:escaped/%s/%s" % (type(e).__name__, where)] += 1
+                    continue
                 res["errors"].append((i, traceback.format_exc()[-3000:]))
                 continue
             res["runs"] += 1
